@@ -3,7 +3,7 @@ from functools import partial
 
 from . import engine
 from .rules import (tables, errflow, stop, scope, fold, hashorder, eqfield, cast, lock, witness, orpat, guard, parsepure,
-                    kernel, evalorder, layer, export, panic, misc, pairflowrule, variant)
+                    kernel, evalorder, layer, export, panic, misc, pairflowrule, variant, folddrop)
 
 TRUST = ["rustc: type checking, MIR construction, Instance resolution, auto traits",
          "pest / pest_meta: PEG semantics, silent/atomic rule semantics, PrattParser precedence climbing",
@@ -37,7 +37,7 @@ INDEX_SCOPE = scope_prefix("instruction::at::", "instruction::slicing::", "<inst
 STDLIB_SCOPE = scope_prefix("stdlib::", "<stdlib::", "variable::try_from::", "<variable::Variable as std::convert::From<std::io")
 
 prop("C01",
-     [guard.run, guard.run_mustcall, misc.run_fnexit, fold.run, scope.run],
+     [guard.run, guard.run_mustcall, misc.run_fnexit, misc.run_looptype, fold.run, scope.run],
      "Decides the structural half of type soundness: all 43 static checks the soundness argument leans on exist, are tested "
      "before every success value of their creation function and cannot be bypassed (R-GUARD, R-MUSTCALL); falling off a function "
      "body yields () and MissingReturn stands in front of that for non-() functions (R-FNEXIT); the Type queries that compute "
@@ -47,7 +47,7 @@ prop("C01",
      "guard conditions are taken as written (a weakened but present condition is not detected)")
 
 prop("C02",
-     [partial(panic.run, name="R-PANIC"), errflow.run, stop.run, scope.run, orpat.run, lock.run, guard.run_execerror, variant.run],
+     [partial(panic.run, name="R-PANIC"), errflow.run, stop.run, scope.run, orpat.run, lock.run, guard.run_execerror, variant.run, guard.run_mustcall, misc.run_looptype],
      "Decides: the complete inventory of panic-capable sites (383 today) is matched per function and signature to a reviewed "
      "justification naming the check that discharges it (R-PANIC); no error or control signal is dropped (R-ERRFLOW); ExecStop is "
      "raised and caught only where the control-flow table says, with the documented routing (R-STOP); no callee declares into the "
@@ -72,7 +72,7 @@ prop("C03",
      "stack / memory exhaustion excluded by the property")
 
 prop("C04",
-     [parsepure.run, kernel.run, guard.run_execerror, misc.run_retain],
+     [parsepure.run, kernel.run, guard.run_execerror, misc.run_retain, folddrop.run],
      "Decides: folding cannot have effects, create cells or run user code (R-PARSEPURE: no path from parse / create / recreate to "
      "Exec::exec; cells built only by Mut::exec / of_type); the fold route and the run route of every operator end in the same "
      "kernel function (R-KERNEL, 62 rows); the early-error arms of the fold path raise only the variant the kernel raises "
@@ -99,7 +99,7 @@ prop("C06",
      "who-may-call, scope pairing with def-use of the layer local and liveness", "")
 
 prop("C07",
-     [evalorder.run],
+     [evalorder.run, folddrop.run],
      "Decides for the 11 Exec bodies that order operands: order by must-precede on the CFG, at most once per path, short-circuit by "
      "control dependence, branch exclusivity by mutual unreachability, sequences by absence of reordering adaptors. Order inside "
      "slice::Iter / zip / collect is trusted.",
@@ -127,7 +127,7 @@ prop("C12",
      [stop.run, evalorder.run,
       partial(guard.run, only_variants=("BreakOutsideLoop", "ContinueOutsideLoop", "ReturnOutsideFunction", "WrongReturn",
                                         "MatchNotCovered", "WrongCondition", "MissingReturn")),
-      partial(tables.run_dispatch, only=("match_arm", "stm", "line", "body")), pairflowrule.run],
+      partial(tables.run_dispatch, only=("match_arm", "stm", "line", "body")), pairflowrule.run, guard.run_mustcall, misc.run_looptype],
      "Decides: a single catch site per signal (Loop::exec for Break/Continue, Function::exec for Return) with the documented "
      "routing, sugared loops emit Break inside a Loop, in_loop set/restored/reset (R-STOP); placement and exhaustiveness guards "
      "exist and dominate success (R-GUARD); arm loop returns at the first cover, branches are exclusive (R-EVALORDER); all three "
@@ -170,7 +170,7 @@ prop("C17",
      "compile_fail witnesses, def-use on the operands of Type::matches, must-call", "")
 
 prop("C18",
-     [export.run, partial(panic.run, scope=STDLIB_SCOPE, name="R-PANIC"), cast.run, variant.run],
+     [export.run, export.run_error_struct, partial(panic.run, scope=STDLIB_SCOPE, name="R-PANIC"), cast.run, variant.run],
      "Decides for all 77 exports: declared parameter names = names the generated closure imports, in order; TypeOf type of each "
      "undecorated parameter = its TryInto target; TypeOf kind = kind tested by TryFrom<&Variable> (8 rows); error-struct keys "
      "agree; every panic-capable site under stdlib is a reviewed row (fs / io bodies have none); stdlib casts are listed with "
@@ -185,7 +185,7 @@ prop("C19",
      "field-projection and callee inspection of the PartialEq impls", "")
 
 prop("C20",
-     [partial(tables.run_dispatch, only=("var_from_str", "int")), misc.run_render, partial(panic.run, scope=scope_prefix("<variable::Variable as std::convert::TryFrom<pest", "<variable::Variable as std::str::FromStr"), name="R-PANIC")],
+     [partial(tables.run_dispatch, only=("var_from_str", "int")), misc.run_render, partial(panic.run, scope=scope_prefix("<variable::Variable as std::convert::TryFrom<pest", "<variable::Variable as std::str::FromStr"), name="R-PANIC"), cast.run],
      "Decides the table clauses: every alternative of the value-literal grammar has a constructor arm in Variable::try_from(Pair); "
      "int literal forms are parsed with radix 2/8/10/16 matching their prefixes and overflow is an Err; arrays / tuples render "
      "elements through Variable::debug and debug uses {:?} for int / float / string. The print/parse round trip itself (escaping, "
